@@ -19,7 +19,7 @@ func init() {
 		Technique: "guarded-by lock-set analysis (type-based lock identity, held-on-entry fixpoint) over the reloadable tables, who-may-call census and call-graph reachability for the single-snapshot rule, value-flow of the published snapshot",
 		Meta: core.Meta{
 			Level:       "other",
-			Explanation: "Decides: (a) guarded-by — BfeServer.ServerConf is read and written only under BfeServer.confLock (start-up InitDataLoad, reachable only from StartUp, exempt), ReverseProxy.transports only under tsMu, and in every module rule table (structs of bfe_modules/* with one mutex field and an Update method; count asserted) the fields Update replaces are accessed only under that table's lock; (b) single snapshot — GetServerConf and raw reads of ServerConf occur only in the reviewed set of entry functions (request construction, protocol handler, connection set-up, TLS-proxy helpers, health-check conf fetcher, reload and monitor handlers), none of them is reachable through static calls from ReverseProxy.ServeHTTP or FinishReq, and the routing steps findProduct/findCluster read the tables of req.SvrDataConf; (c) swap — the value stored into ServerConf is the result of LoadServerDataConf (fully built and checked before the locked store), each module table's Update replaces its fields inside one critical section, and code after the swap uses the local snapshot. Not covered: races through aliases (a table's inner maps mutated in place elsewhere), TLS reload internals, module filters reaching server state through closures (function values stored in container/list are not followed).",
+			Explanation: "Decides: (a) guarded-by — BfeServer.ServerConf is read and written only under BfeServer.confLock (start-up InitDataLoad, reachable only from StartUp, exempt), ReverseProxy.transports only under tsMu, and in every module rule table (structs of bfe_modules/* with one mutex field and an Update method; count asserted) the fields Update replaces are accessed only under that table's lock; (b) single snapshot — GetServerConf and raw reads of ServerConf occur only in the reviewed set of entry functions (request construction, protocol handler, connection set-up, TLS-proxy helpers, health-check conf fetcher, reload and monitor handlers) and their private helpers, no reviewed function takes the live conf twice on one path, none of them is reachable through static calls from ReverseProxy.ServeHTTP or FinishReq, and the routing steps findProduct/findCluster look tables up only on values that flow from the SvrDataConf field of a request; (c) swap — the value stored into ServerConf is result 0 of LoadServerDataConf on the err == nil path of that call (fully built and checked before the locked store), each module table's Update replaces its fields under the write lock with no release of the lock between two replacing stores on any path, and code after the swap uses the local snapshot. A reviewed/exempt function stands for its region: unexported helpers that are never used as values and are called only from inside the region; Update stands for itself plus the methods it calls on its own receiver; a value stored or used in such a helper is followed through the helper's parameter to the argument at every call site; tests are matched as comparisons with polarity folded in, not by operand order or branch shape. Not covered: races through aliases (a table's inner maps mutated in place elsewhere), TLS reload internals, module filters reaching server state through closures (function values stored in container/list are not followed), helpers shared with code outside the reviewed set (their accesses are reported).",
 			RuleText:    "obligations = each access to a guarded field, each caller/raw reader of the server conf, each function reachable from the request path, each module table Update",
 			Assumptions: []string{"lock instances are identified by their containing type"},
 		},
@@ -35,6 +35,11 @@ func init() {
 			{Name: "transports-unlocked", File: "bfe_server/reverseproxy.go", Old: "	p.tsMu.RLock()\n	transport, ok := p.transports[cluster.Name]\n	p.tsMu.RUnlock()", New: "	transport, ok := p.transports[cluster.Name]", Expect: "guarded-by"},
 			{Name: "reload-mutates-snapshot-alias", File: "bfe_balance/bal_table.go", Old: "	t.lock.Lock()\n\n	var fails []string\n	bmNew := make(BalMap)\n	for clusterName, gslbConf := range *gslbConfs.Clusters {\n		bal, ok := t.balTable[clusterName]\n		if !ok {\n			// new one balance\n			bal = bal_gslb.NewBalanceGslb(clusterName)\n		} else {\n			delete(t.balTable, clusterName)\n		}", New: "	t.lock.RLock()\n	bmOld := t.balTable\n	t.lock.RUnlock()\n	t.lock.Lock()\n	t.lock.Unlock()\n\n	var fails []string\n	bmNew := make(BalMap)\n	for clusterName, gslbConf := range *gslbConfs.Clusters {\n		bal, ok := bmOld[clusterName]\n		if !ok {\n			// new one balance\n			bal = bal_gslb.NewBalanceGslb(clusterName)\n		} else {\n			delete(bmOld, clusterName)\n		}\n		t.lock.Lock()", Expect: "guarded-mutation"},
 			{Name: "swap-unchecked-conf", File: "bfe_server/bfe_confdata_load.go", Old: "	srv.confLock.Lock()\n	srv.ServerConf = newServerConf\n	srv.confLock.Unlock()\n", New: "	srv.confLock.Lock()\n	srv.ServerConf = &bfe_route.ServerDataConf{HostTable: newServerConf.HostTable}\n	srv.ServerConf.ClusterTable = newServerConf.ClusterTable\n	srv.confLock.Unlock()\n", Expect: "swap-value"},
+			// behaviour-preserving edits (one per class of refactoring the rules were made robust against): the verdict must not change
+			{Name: "neutral-swap-helper-inverted-err", File: "bfe_server/bfe_confdata_load.go", Old: "	newServerConf, err := bfe_route.LoadServerDataConf(hostFile, vipFile, routeFile, clusterConfFile)\n	if err != nil {\n		log.Logger.Error(\"ServerDataConfReload():bfe_route.LoadServerDataConf: %s\", err)\n		return err\n	}\n\n	srv.confLock.Lock()\n	srv.ServerConf = newServerConf\n	srv.confLock.Unlock()\n\n	srv.ReverseProxy.setTransports(newServerConf.ClusterTable.ClusterMap())\n\n	// set gslb basic\n	srv.balTable.SetGslbBasic(newServerConf.ClusterTable)\n	// set slow_start config\n	srv.balTable.SetSlowStart(newServerConf.ClusterTable)\n\n	return nil\n}\n", New: "	loaded, loadErr := bfe_route.LoadServerDataConf(hostFile, vipFile, routeFile, clusterConfFile)\n	if nil == loadErr {\n		srv.installServerConf(loaded)\n		log.Logger.Debug(\"ServerDataConfReload():new server data conf installed\")\n\n		srv.ReverseProxy.setTransports(loaded.ClusterTable.ClusterMap())\n\n		// set gslb basic\n		srv.balTable.SetGslbBasic(loaded.ClusterTable)\n		// set slow_start config\n		srv.balTable.SetSlowStart(loaded.ClusterTable)\n\n		return nil\n	}\n	log.Logger.Error(\"ServerDataConfReload():bfe_route.LoadServerDataConf: %s\", loadErr)\n	return loadErr\n}\n\n// installServerConf publishes a fully loaded server data conf.\nfunc (srv *BfeServer) installServerConf(next *bfe_route.ServerDataConf) {\n	srv.confLock.Lock()\n	defer srv.confLock.Unlock()\n	srv.ServerConf = next\n}\n", Silent: true},
+			{Name: "neutral-table-update-helper", File: "bfe_modules/mod_block/product_rule_table.go", Old: "func (t *ProductRuleTable) Update(conf productRuleConf) {\n	t.lock.Lock()\n	t.version = conf.Version\n	t.productRules = conf.Config\n	t.lock.Unlock()\n}\n", New: "func (t *ProductRuleTable) Update(conf productRuleConf) {\n	t.lock.Lock()\n	defer t.lock.Unlock()\n	t.replace(conf)\n}\n\n// replace swaps in the new generation; the caller holds t.lock.\nfunc (t *ProductRuleTable) replace(next productRuleConf) {\n	t.productRules = next.Config\n	t.version = next.Version\n}\n", Silent: true},
+			{Name: "neutral-routing-renamed-helper", File: "bfe_server/find_location.go", Old: "func (srv *BfeServer) findCluster(req *bfe_basic.Request) error {\n	req.Stat.LocateStart = time.Now()\n	defer func() {\n		req.Stat.LocateEnd = time.Now()\n	}()\n\n	serverConf := req.SvrDataConf.(*bfe_route.ServerDataConf)\n\n	// look up clusterName\n	return serverConf.HostTable.LookupCluster(req)\n}\n", New: "func (srv *BfeServer) findCluster(request *bfe_basic.Request) error {\n	request.Stat.LocateStart = time.Now()\n	defer func() {\n		request.Stat.LocateEnd = time.Now()\n	}()\n\n	snapshot := request.SvrDataConf\n	return lookupClusterIn(snapshot.(*bfe_route.ServerDataConf), request)\n}\n\n// lookupClusterIn looks up clusterName in the given snapshot.\nfunc lookupClusterIn(snapshot *bfe_route.ServerDataConf, request *bfe_basic.Request) error {\n	hostTable := snapshot.HostTable\n	return hostTable.LookupCluster(request)\n}\n", Silent: true},
+			{Name: "neutral-getter-private-helper", File: "bfe_server/find_location.go", Old: "func (srv *BfeServer) FindProduct(conn net.Conn) string {\n	sc := srv.GetServerConf()\n", New: "func (srv *BfeServer) confForProxiedConn() *bfe_route.ServerDataConf {\n	return srv.GetServerConf()\n}\n\nfunc (srv *BfeServer) FindProduct(conn net.Conn) string {\n	sc := srv.confForProxiedConn()\n", Silent: true},
 		},
 	})
 }
@@ -47,6 +52,26 @@ func runC15(c *core.Ctx) {
 	}
 	pl := core.WholeProgramLocks(c.P)
 	all := c.P.SrcFuncs("")
+	ix := newConfIdx(c.P)
+	byKey := map[string]*ssa.Function{}
+	for _, f := range all {
+		if f.Parent() == nil {
+			byKey[core.FuncKey(f)] = f
+		}
+	}
+	// regionOfKeys: the named functions plus their private helpers (unexported, never used as a
+	// value, every call site inside the set): a statement moved from a reviewed function into
+	// such a helper is still executed by the reviewed functions only.
+	regionOfKeys := func(keys map[string]bool) map[*ssa.Function]bool {
+		var seeds []*ssa.Function
+		for k := range keys {
+			if f := byKey[k]; f != nil {
+				seeds = append(seeds, f)
+			}
+		}
+		sort.Slice(seeds, func(i, j int) bool { return seeds[i].Pos() < seeds[j].Pos() })
+		return ix.regionOf(seeds...)
+	}
 	confFld, ok1 := c.P.Obj(srv, "BfeServer.ServerConf").(*types.Var)
 	trFld, ok2 := c.P.Obj(srv, "ReverseProxy.transports").(*types.Var)
 	if !ok1 || !ok2 {
@@ -120,43 +145,59 @@ func runC15(c *core.Ctx) {
 			nTables++
 			lock := rel + "." + name + "." + lockField.Name()
 			c.Analysed(core.FuncKey(ufn))
-			// fields replaced by Update
+			// fields replaced by Update: stores through the receiver in Update itself and in the
+			// methods of the same table it calls on its receiver (an extracted `t.swap(conf)` is
+			// part of Update)
+			ufns := recvCallees(ufn, 2)
+			isRepl := func(in ssa.Instruction) bool { return tableFieldStore(in, st, lockField) != nil }
+			isUnlock := func(in ssa.Instruction) bool {
+				call, ok := in.(*ssa.Call)
+				if !ok {
+					return false
+				}
+				k, l, ok := core.LockEventT(&call.Call)
+				return ok && k == "Unlock" && l == lock
+			}
 			var replaced []*types.Var
-			ls := core.ComputeLockSetsT(ufn)
-			sections := map[string]bool{}
-			core.Instrs(ufn, func(in ssa.Instruction) {
-				s, ok := in.(*ssa.Store)
-				if !ok {
-					return
-				}
-				fa, ok := s.Addr.(*ssa.FieldAddr)
-				if !ok {
-					return
-				}
-				fv := core.FieldObj(fa.X, fa.Field)
-				if fv == nil || fv == lockField {
-					return
-				}
-				if _, isParam := fa.X.(*ssa.Parameter); !isParam {
-					return
-				}
-				replaced = append(replaced, fv)
-				// critical-section identity: the Lock call that dominates this store most closely
-				var sec string
-				core.Instrs(ufn, func(x ssa.Instruction) {
-					if call, ok := x.(*ssa.Call); ok {
-						if k, l, ok := core.LockEventT(&call.Call); ok && k == "Lock" && l == lock && core.Dominates(call, in) {
-							sec = c.P.Pos(call.Pos())
+			unlocked := 0
+			for _, g := range ufns {
+				core.Instrs(g, func(in ssa.Instruction) {
+					if fv := tableFieldStore(in, st, lockField); fv != nil {
+						replaced = append(replaced, fv)
+						if !pl.HeldT(in, lock, "W") {
+							unlocked++
 						}
 					}
 				})
-				if !ls.Holds(in, lock, "W") {
-					sec = "unlocked"
-				}
-				sections[sec] = true
-			})
-			c.Check("update-atomic", rel+"."+name+".Update", ufn.Pos(), len(replaced) > 0 && len(sections) == 1 && !sections["unlocked"] && !sections[""],
-				fmt.Sprintf("%s.Update must replace its fields inside one critical section of %s (stores: %d, distinct sections: %d); a reader between two sections sees the new version with the old rules", name, lock, len(replaced), len(sections)))
+			}
+			// one critical section: no path executes a replacing store, then releases the lock,
+			// then executes another replacing store (decided on paths, so the position of the
+			// Lock/Unlock calls, `defer Unlock` and the order of the stores do not matter)
+			mayStore, mayUnlock := core.LiftMay(isRepl, 2), core.LiftMay(isUnlock, 2)
+			split := false
+			for _, g := range ufns {
+				core.Instrs(g, func(a ssa.Instruction) {
+					if split || !mayStore(a) {
+						return
+					}
+					if _, isDefer := a.(*ssa.Defer); isDefer {
+						return
+					}
+					for _, u := range reachAll(g, a, mayUnlock) {
+						if _, isDefer := u.(*ssa.Defer); isDefer {
+							continue
+						}
+						if core.ReachAvoiding(g, u, nil, mayStore) != nil {
+							split = true
+						}
+					}
+					if !isRepl(a) && mayUnlock(a) && core.ReachAvoiding(g, a, nil, mayStore) != nil {
+						split = true
+					}
+				})
+			}
+			c.Check("update-atomic", rel+"."+name+".Update", ufn.Pos(), len(replaced) > 0 && unlocked == 0 && !split,
+				fmt.Sprintf("%s.Update must replace its fields inside one critical section of %s (stores: %d, outside the write lock: %d, lock released between two stores: %v); a reader between two sections sees the new version with the old rules", name, lock, len(replaced), unlocked, split))
 			for _, prob := range tableUpdateProblems(ufn, st, lockField) {
 				c.Check("update-replaces", rel+"."+name+".Update:"+prob.key, prob.pos, false, name+".Update "+prob.msg)
 			}
@@ -172,14 +213,30 @@ func runC15(c *core.Ctx) {
 	c.Note("%d module rule tables found by shape", nTables)
 	// ---- (a) guarded-by -----------------------------------------------------------------------------
 	ord := map[string]int{}
+	exemptRegions := map[string]map[*ssa.Function]bool{}
+	exemptRegion := func(exempt map[string]bool) map[*ssa.Function]bool {
+		var ks []string
+		for k := range exempt {
+			ks = append(ks, k)
+		}
+		sort.Strings(ks)
+		id := strings.Join(ks, ",")
+		if r, ok := exemptRegions[id]; ok {
+			return r
+		}
+		r := regionOfKeys(exempt)
+		exemptRegions[id] = r
+		return r
+	}
 	for _, sp := range specs {
+		exReg := exemptRegion(sp.exempt)
 		for _, fn := range all {
 			k := core.FuncKey(fn)
 			root := k
 			if i := strings.Index(k, "$"); i >= 0 {
 				root = k[:i]
 			}
-			if sp.exempt[root] || strings.HasSuffix(root, ".New"+strings.TrimPrefix(sp.fld.Pkg().Name(), "")) {
+			if sp.exempt[root] || exReg[fn] || strings.HasSuffix(root, ".New"+strings.TrimPrefix(sp.fld.Pkg().Name(), "")) {
 				continue
 			}
 			core.Instrs(fn, func(in ssa.Instruction) {
@@ -221,13 +278,14 @@ func runC15(c *core.Ctx) {
 		default:
 			continue
 		}
+		exReg := exemptRegion(sp.exempt)
 		for _, fn := range all {
 			k := core.FuncKey(fn)
 			root := k
 			if i := strings.Index(k, "$"); i >= 0 {
 				root = k[:i]
 			}
-			if sp.exempt[root] {
+			if sp.exempt[root] || exReg[fn] {
 				continue
 			}
 			core.Instrs(fn, func(in ssa.Instruction) {
@@ -349,15 +407,66 @@ func runC15(c *core.Ctx) {
 		srv + ".BfeServer.Balance":         "TLS-proxy helper: takes one snapshot and passes it to the pseudo request",
 		srv + ".BfeServer.GetCheckConf":    "health-check thresholds are read live by design",
 	}
+	// A private helper of the reviewed entry functions (unexported, never used as a value, every
+	// call site inside the reviewed set or another such helper) is part of them: its callers are
+	// still exactly the reviewed functions. The obligation is keyed by the function that
+	// contains the call.
+	getterKeys := map[string]bool{}
+	for k := range allowedGetters {
+		getterKeys[k] = true
+	}
+	getterRegion := regionOfKeys(getterKeys)
+	isGetConf := func(in ssa.Instruction) bool {
+		ci, ok := in.(ssa.CallInstruction)
+		return ok && core.CallIs(ci.Common(), srv+".BfeServer.GetServerConf")
+	}
 	var got []string
 	for _, f := range all {
 		if n := len(core.Calls(f, srv+".BfeServer.GetServerConf")); n > 0 {
 			k := core.FuncKey(f)
 			got = append(got, k)
 			_, ok := allowedGetters[k]
+			ok = ok || getterRegion[f]
 			c.Check("snapshot", "GetServerConf<-"+k, f.Pos(), ok, k+" reads the live server conf; per-request code must use the snapshot taken when the request was created (req.SvrDataConf), otherwise one request can mix two config generations")
-			if n > 1 {
-				c.Check("snapshot", "GetServerConf-twice<-"+k, f.Pos(), false, k+" takes the live server conf more than once")
+		}
+	}
+	// no reviewed entry function takes the live conf twice on one path (directly or through the
+	// helpers it calls): two call sites on exclusive branches are one snapshot per execution
+	for k := range allowedGetters {
+		f := byKey[k]
+		if f == nil {
+			continue
+		}
+		reg := ix.regionList(f)
+		// members of the region that (transitively, inside the region) call GetServerConf
+		gets := map[*ssa.Function]bool{}
+		for changed := true; changed; {
+			changed = false
+			for _, g := range reg {
+				if gets[g] {
+					continue
+				}
+				core.Instrs(g, func(in ssa.Instruction) {
+					if ci, isCall := in.(ssa.CallInstruction); isCall && !gets[g] && (isGetConf(in) || gets[ci.Common().StaticCallee()]) {
+						gets[g] = true
+						changed = true
+					}
+				})
+			}
+		}
+		mayGet := func(in ssa.Instruction) bool {
+			ci, isCall := in.(ssa.CallInstruction)
+			return isCall && (isGetConf(in) || gets[ci.Common().StaticCallee()])
+		}
+		for _, g := range reg {
+			twice := false
+			core.Instrs(g, func(a ssa.Instruction) {
+				if !twice && mayGet(a) && core.ReachAvoiding(g, a, nil, mayGet) != nil {
+					twice = true
+				}
+			})
+			if twice {
+				c.Check("snapshot", "GetServerConf-twice<-"+core.FuncKey(g), g.Pos(), false, core.FuncKey(g)+" takes the live server conf more than once on one path")
 			}
 		}
 	}
@@ -367,9 +476,10 @@ func runC15(c *core.Ctx) {
 		srv + ".BfeServer.GetServerConf": true, srv + ".BfeServer.InitDataLoad": true, srv + ".BfeServer.serverDataConfReload": true, srv + ".BfeServer.gslbDataConfReload": true,
 		srv + ".BfeServer.HostTableStatusGet": true, srv + ".BfeServer.HostTableVersionGet": true, srv + ".BfeServer.ClusterTableVersionGet": true,
 	}
+	rawRegion := regionOfKeys(rawAllowed)
 	for _, in := range core.FieldReads(all, confFld) {
 		k := core.FuncKey(in.Parent())
-		c.Check("snapshot-raw", k, in.Pos(), rawAllowed[k], k+" reads BfeServer.ServerConf directly; only the accessor, the reload functions and the monitor handlers are reviewed")
+		c.Check("snapshot-raw", k, in.Pos(), rawAllowed[k] || rawRegion[in.Parent()], k+" reads BfeServer.ServerConf directly; only the accessor, the reload functions, the monitor handlers and their private helpers are reviewed")
 	}
 	// reachability from the request path
 	for _, rootName := range []string{"ReverseProxy.ServeHTTP", "ReverseProxy.FinishReq"} {
@@ -401,7 +511,13 @@ func runC15(c *core.Ctx) {
 		minReach := map[string]int{"ReverseProxy.ServeHTTP": 20, "ReverseProxy.FinishReq": 3}[rootName]
 		c.Check("snapshot-reach", rootName, root.Pos(), n > minReach, fmt.Sprintf("%d module functions reachable from %s were inspected", n, rootName))
 	}
-	// routing reads the request's snapshot
+	// routing reads the request's snapshot: every host/cluster table lookup of findProduct /
+	// findCluster (and of their private helpers) is made on a table obtained from the
+	// SvrDataConf field of a request (value flow, not the spelling of the receiver)
+	snapFld, _ := c.P.Obj("bfe_basic", "Request.SvrDataConf").(*types.Var)
+	if snapFld == nil {
+		c.Missing("bfe_basic.Request.SvrDataConf")
+	}
 	for _, fname := range []string{"BfeServer.findProduct", "BfeServer.findCluster"} {
 		fn := c.P.Func(srv, fname)
 		if fn == nil {
@@ -410,14 +526,17 @@ func runC15(c *core.Ctx) {
 		}
 		c.Analysed(core.FuncKey(fn))
 		n := 0
-		for _, ci := range core.AllCalls(fn) {
-			k := core.CalleeKey(ci.Common())
-			if !strings.HasPrefix(k, "bfe_route.HostTable.") && !strings.HasPrefix(k, "bfe_route.ClusterTable.") {
-				continue
+		for _, g := range ix.regionList(fn) {
+			for _, ci := range core.AllCalls(g) {
+				k := core.CalleeKey(ci.Common())
+				if !strings.HasPrefix(k, "bfe_route.HostTable.") && !strings.HasPrefix(k, "bfe_route.ClusterTable.") {
+					continue
+				}
+				n++
+				recv := core.Render(ci.Common().Args[0])
+				ok := snapFld != nil && ix.derivesFromField(ci.Common().Args[0], snapFld, 0, map[ssa.Value]bool{})
+				c.Check("snapshot-use", fmt.Sprintf("%s:%s", fname, k), ci.Pos(), ok, fname+" looks up "+k+" on "+recv+", not on the request's own snapshot req.SvrDataConf")
 			}
-			n++
-			recv := core.Render(ci.Common().Args[0])
-			c.Check("snapshot-use", fmt.Sprintf("%s:%s", fname, k), ci.Pos(), strings.Contains(recv, "req.SvrDataConf"), fname+" looks up "+k+" on "+recv+", not on the request's own snapshot req.SvrDataConf")
 		}
 		if n == 0 {
 			c.Check("snapshot-use", fname, fn.Pos(), false, "no table lookup found in "+fname)
@@ -426,20 +545,10 @@ func runC15(c *core.Ctx) {
 	// ---- (c) swap value ----------------------------------------------------------------------------------
 	for _, st := range core.FieldStores(all, confFld) {
 		k := core.FuncKey(st.Fn)
-		ok := false
-		if ex, isEx := core.StripConv(st.Store.Val).(*ssa.Extract); isEx && ex.Index == 0 {
-			if call, isCall := ex.Tuple.(*ssa.Call); isCall && core.CallIs(&call.Call, "bfe_route.LoadServerDataConf") {
-				// stored only on the err == nil path
-				ok = core.HasGuard(st.Store.Block(), func(g core.Guard) bool {
-					b, isB := g.Cond.(*ssa.BinOp)
-					if !isB || !isNilConst(b.Y) {
-						return false
-					}
-					e, isE := b.X.(*ssa.Extract)
-					return isE && e.Tuple == ssa.Value(call) && e.Index == 1 && ((b.Op == token.NEQ && !g.Pol) || (b.Op == token.EQL && g.Pol))
-				})
-			}
-		}
+		// the stored value is result 0 of LoadServerDataConf, seen on the err == nil path of that
+		// call; when the store sits in a private helper the value is followed through the
+		// helper's parameter to every call site
+		ok := swapValueOK(ix, st.Store.Val, st.Store.Block(), 3)
 		c.Check("swap-value", k, st.Store.Pos(), ok, "the value published as ServerConf must be exactly the result of LoadServerDataConf on its err == nil path (fully built and cross-checked before the swap); stores: "+core.Render(st.Store.Val))
 	}
 	c.Min("swap-value", 2)
@@ -461,6 +570,73 @@ func runC15(c *core.Ctx) {
 	}
 }
 
+// recvCallees returns fn followed by the methods of the same receiver type (same package,
+// with a body) that fn calls statically on its own receiver, transitively up to depth: what
+// such a method does to the receiver's fields is done by fn. Helper extraction from / inlining
+// into Update therefore does not change what the rules about Update see.
+func recvCallees(fn *ssa.Function, depth int) []*ssa.Function {
+	out := []*ssa.Function{fn}
+	if fn == nil || fn.Signature.Recv() == nil || len(fn.Params) == 0 {
+		return out
+	}
+	rt := fn.Signature.Recv().Type()
+	seen := map[*ssa.Function]bool{fn: true}
+	frontier := []*ssa.Function{fn}
+	for d := 0; d < depth; d++ {
+		var next []*ssa.Function
+		for _, f := range frontier {
+			core.Instrs(f, func(in ssa.Instruction) {
+				ci, ok := in.(ssa.CallInstruction)
+				if !ok {
+					return
+				}
+				if _, isGo := in.(*ssa.Go); isGo {
+					return
+				}
+				h := ci.Common().StaticCallee()
+				if h == nil || seen[h] || h.Blocks == nil || h.Signature.Recv() == nil || len(h.Params) == 0 || h.Pkg != fn.Pkg {
+					return
+				}
+				if !types.Identical(h.Signature.Recv().Type(), rt) || len(ci.Common().Args) == 0 || ci.Common().Args[0] != ssa.Value(f.Params[0]) {
+					return
+				}
+				seen[h] = true
+				out = append(out, h)
+				next = append(next, h)
+			})
+		}
+		frontier = next
+	}
+	return out
+}
+
+// tableFieldStore: in is a store through the enclosing method's receiver into a field of the
+// table struct st other than its lock -> that field.
+func tableFieldStore(in ssa.Instruction, st *types.Struct, lockField *types.Var) *types.Var {
+	s, ok := in.(*ssa.Store)
+	if !ok {
+		return nil
+	}
+	fa, ok := s.Addr.(*ssa.FieldAddr)
+	if !ok {
+		return nil
+	}
+	pr, isParam := fa.X.(*ssa.Parameter)
+	if !isParam || len(pr.Parent().Params) == 0 || pr.Parent().Params[0] != pr || pr.Parent().Signature.Recv() == nil {
+		return nil
+	}
+	fv := core.FieldObj(fa.X, fa.Field)
+	if fv == nil || fv == lockField {
+		return nil
+	}
+	for i := 0; i < st.NumFields(); i++ {
+		if st.Field(i) == fv {
+			return fv
+		}
+	}
+	return nil
+}
+
 type tableProblem struct {
 	key, msg string
 	pos      token.Pos
@@ -469,40 +645,41 @@ type tableProblem struct {
 // tableUpdateProblems: a reloadable table's Update must swap in the new generation as a whole:
 // every map/slice field of the table is overwritten by Update (not merged into), and the old
 // container is not mutated in place (readers hold references to it after releasing the lock, and
-// entries dropped from the new file would survive the reload).
+// entries dropped from the new file would survive the reload). Update means Update and the
+// methods it calls on its own receiver (recvCallees).
 func tableUpdateProblems(ufn *ssa.Function, st *types.Struct, lockField *types.Var) []tableProblem {
 	var out []tableProblem
 	if len(ufn.Params) == 0 {
 		return out
 	}
-	recv := ufn.Params[0]
 	stored := map[*types.Var]bool{}
-	core.Instrs(ufn, func(in ssa.Instruction) {
-		switch x := in.(type) {
-		case *ssa.Store:
-			if fa, ok := x.Addr.(*ssa.FieldAddr); ok && fa.X == ssa.Value(recv) {
-				if fv := core.FieldObj(fa.X, fa.Field); fv != nil {
-					stored[fv] = true
-					// the stored value must not be the old container itself
-					if ld, isLd := core.StripConv(x.Val).(*ssa.UnOp); isLd && ld.Op == token.MUL {
-						if fa2, isFA := ld.X.(*ssa.FieldAddr); isFA && fa2.X == ssa.Value(recv) && core.FieldObj(fa2.X, fa2.Field) == fv {
+	for _, g := range recvCallees(ufn, 2) {
+		recv := g.Params[0]
+		core.Instrs(g, func(in ssa.Instruction) {
+			switch x := in.(type) {
+			case *ssa.Store:
+				if fa, ok := x.Addr.(*ssa.FieldAddr); ok && fa.X == ssa.Value(recv) {
+					if fv := core.FieldObj(fa.X, fa.Field); fv != nil {
+						stored[fv] = true
+						// the stored value must not be the old container itself
+						if fv2 := recvFieldLoad(x.Val, recv); fv2 == fv {
 							out = append(out, tableProblem{fv.Name() + ":self-store", "stores the old value of " + fv.Name() + " back instead of the new generation", x.Pos()})
 						}
 					}
 				}
-			}
-		case *ssa.MapUpdate:
-			if fv := recvFieldLoad(x.Map, recv); fv != nil {
-				out = append(out, tableProblem{fv.Name() + ":merge", "writes entries into the existing " + fv.Name() + " map instead of replacing it: entries that the new file no longer contains survive the reload, and readers holding the old map see it change", x.Pos()})
-			}
-		case *ssa.Call:
-			if b, ok := x.Call.Value.(*ssa.Builtin); ok && b.Name() == "delete" && len(x.Call.Args) > 0 {
-				if fv := recvFieldLoad(x.Call.Args[0], recv); fv != nil {
-					out = append(out, tableProblem{fv.Name() + ":delete", "deletes from the existing " + fv.Name() + " map in place", x.Pos()})
+			case *ssa.MapUpdate:
+				if fv := recvFieldLoad(x.Map, recv); fv != nil {
+					out = append(out, tableProblem{fv.Name() + ":merge", "writes entries into the existing " + fv.Name() + " map instead of replacing it: entries that the new file no longer contains survive the reload, and readers holding the old map see it change", x.Pos()})
+				}
+			case *ssa.Call:
+				if b, ok := x.Call.Value.(*ssa.Builtin); ok && b.Name() == "delete" && len(x.Call.Args) > 0 {
+					if fv := recvFieldLoad(x.Call.Args[0], recv); fv != nil {
+						out = append(out, tableProblem{fv.Name() + ":delete", "deletes from the existing " + fv.Name() + " map in place", x.Pos()})
+					}
 				}
 			}
-		}
-	})
+		})
+	}
 	for i := 0; i < st.NumFields(); i++ {
 		f := st.Field(i)
 		if f == lockField {
@@ -518,9 +695,25 @@ func tableUpdateProblems(ufn *ssa.Function, st *types.Struct, lockField *types.V
 	return out
 }
 
-// recvFieldLoad: v is (a phi-free) load of a field of recv -> that field.
+// recvFieldLoad: v is a load of a field of recv (possibly through a phi whose edges all load
+// the same field: a named intermediate assigned in both branches) -> that field.
 func recvFieldLoad(v ssa.Value, recv *ssa.Parameter) *types.Var {
-	ld, ok := core.StripConv(v).(*ssa.UnOp)
+	v = core.StripConv(v)
+	if phi, ok := v.(*ssa.Phi); ok {
+		var f *types.Var
+		for i, e := range phi.Edges {
+			if _, isPhi := core.StripConv(e).(*ssa.Phi); isPhi {
+				return nil
+			}
+			g := recvFieldLoad(e, recv)
+			if g == nil || (i > 0 && g != f) {
+				return nil
+			}
+			f = g
+		}
+		return f
+	}
+	ld, ok := v.(*ssa.UnOp)
 	if !ok || ld.Op != token.MUL {
 		return nil
 	}
@@ -529,4 +722,49 @@ func recvFieldLoad(v ssa.Value, recv *ssa.Parameter) *types.Var {
 		return nil
 	}
 	return core.FieldObj(fa.X, fa.Field)
+}
+
+// swapValueOK: v, used in block b, is result 0 of a call of bfe_route.LoadServerDataConf whose
+// error result is known to be nil at b (any spelling of the test: `err != nil { return }`,
+// `if err == nil { ... }`, `nil == err`). A parameter of a private helper is followed to the
+// argument at each of its call sites (the guard is then looked for at the call site).
+func swapValueOK(ix *confIdx, v ssa.Value, b *ssa.BasicBlock, depth int) bool {
+	v = core.StripConv(v)
+	switch t := v.(type) {
+	case *ssa.Extract:
+		call, isCall := t.Tuple.(*ssa.Call)
+		if !isCall || t.Index != 0 || !core.CallIs(&call.Call, "bfe_route.LoadServerDataConf") {
+			return false
+		}
+		isErr := func(e ssa.Value) bool {
+			x, isE := e.(*ssa.Extract)
+			return isE && x.Tuple == ssa.Value(call) && x.Index == 1
+		}
+		return core.HasGuard(b, func(g core.Guard) bool { return g.CmpIs(token.EQL, isErr, isNilConst) })
+	case *ssa.Parameter:
+		if depth <= 0 {
+			return false
+		}
+		args, blocks, ok := ix.argsFor(t)
+		if !ok || len(args) == 0 {
+			return false
+		}
+		for i, a := range args {
+			if !swapValueOK(ix, a, blocks[i], depth-1) {
+				return false
+			}
+		}
+		return true
+	case *ssa.Phi:
+		if depth <= 0 {
+			return false
+		}
+		for _, e := range t.Edges {
+			if !swapValueOK(ix, e, b, depth-1) {
+				return false
+			}
+		}
+		return len(t.Edges) > 0
+	}
+	return false
 }
